@@ -173,6 +173,52 @@ def curated_programs() -> list[dict]:
                          "xx": {"units": {"r": 1}, "vers": [_t("leaf", 1)]},
                          "dd": {"units": {"r": 1}, "vers": [_t("leaf", 1), _t("leaf", 10)]}},
                "plan": [RUN, {"k": "edit", "t": "dd"}, RUN]})
+    # 16. a limited task fails while it holds the only unit, the failure is caught (catch), two jobs wait in the
+    #     limits queue: the release in the reject path must renominate them
+    ps.append({"ns": "cur16", "res": ["r"], "limits": {"r": 1}, "root": {"t": "main", "arg": 0},
+               "tasks": {"main": {"units": {}, "vers": [_t("calls", 0, [_c("bad", "c", 1, g=1), _c("leaf", "c", 2),
+                                                                         _c("leaf", "c", 3)])]},
+                         "leaf": {"units": {"r": 1}, "vers": [_t("leaf", 1)]},
+                         "bad": {"units": {"r": 1}, "vers": [_t("fail", 0)]}},
+               "plan": [RUN]})
+    # 17. a shallow task that succeeds although a child beneath it failed (caught); a task that ran beneath the
+    #     FAILED job is edited: the failed job's subtree belongs to the recorded subtree task set
+    ps.append({"ns": "cur17", "res": ["r"], "limits": {"r": 2}, "root": {"t": "main", "arg": 0},
+               "tasks": {"main": {"units": {}, "vers": [_t("calls", 0, [_c("pp", "c", 1)])]},
+                         "pp": {"units": {}, "sh": 1, "vers": [_t("calls", 0, [_c("fmid", "c", 1, g=1), _c("leaf", "c", 7)])]},
+                         "fmid": {"units": {}, "vers": [_t("calls", 0, [_c("deep", "p", 0), _c("bad", "s", 0, 1)])]},
+                         "deep": {"units": {"r": 1}, "vers": [_t("leaf", 1), _t("leaf", 10)]},
+                         "leaf": {"units": {"r": 1}, "vers": [_t("leaf", 1)]},
+                         "bad": {"units": {}, "vers": [_t("fail", 0)]}},
+               "plan": [RUN, {"k": "edit", "t": "deep"}, RUN]})
+    # 18. one parent makes the same call (same task, same evaluated argument) through two DIFFERENT expressions:
+    #     depending on timing the second job collapses onto the pending first or is answered by CSE; the parent's
+    #     recorded children and call hash must be the same either way
+    ps.append({"ns": "cur18", "res": ["r"], "limits": {"r": 1}, "root": {"t": "main", "arg": 0},
+               "tasks": {"main": {"units": {}, "vers": [_t("calls", 0, [_c("ia", "c", 3), _c("ib", "c", 2),
+                                                                         _c("ex", "s", 0, 1), _c("ex", "s", 0, 2)])]},
+                         "ia": {"units": {}, "vers": [_t("leaf", 1)]},
+                         "ib": {"units": {}, "vers": [_t("leaf", 2)]},
+                         "ex": {"units": {"r": 1}, "vers": [_t("leaf", 10)]}},
+               "plan": [RUN]})
+    # 19. a caught failure while a job beneath the failed job is still running: as built the workflow can return
+    #     with that job abandoned (open finding caught-failure-leaves-job-running, C09)
+    ps.append({"ns": "cur19", "res": ["r"], "limits": {"r": 2}, "root": {"t": "main", "arg": 0},
+               "tasks": {"main": {"units": {}, "vers": [_t("calls", 0, [_c("fmid", "c", 1, g=1), _c("leaf", "c", 7)])]},
+                         "fmid": {"units": {}, "vers": [_t("calls", 0, [_c("leaf", "p", 0), _c("bad", "p", 0)])]},
+                         "leaf": {"units": {"r": 1}, "vers": [_t("leaf", 1)]},
+                         "bad": {"units": {}, "vers": [_t("fail", 0)]}},
+               "plan": [RUN]})
+    # 20. an async task (no single reduction) that returns an expression: a duplicate created after the executor
+    #     finished the first call but before it resolved (its child is still running) must collapse onto it
+    ps.append({"ns": "cur20", "res": ["r"], "limits": {"r": 2}, "root": {"t": "main", "arg": 0},
+               "tasks": {"main": {"units": {}, "vers": [_t("calls", 0, [_c("am", "c", 1), _c("xx", "c", 5),
+                                                                         _c("wrap", "s", 0, 2)])]},
+                         "am": {"units": {}, "as": 1, "vers": [_t("calls", 0, [_c("slow", "p", 0)])]},
+                         "wrap": {"units": {}, "vers": [_t("calls", 0, [_c("am", "c", 1)])]},
+                         "xx": {"units": {"r": 1}, "vers": [_t("leaf", 1)]},
+                         "slow": {"units": {"r": 1}, "vers": [_t("leaf", 3)]}},
+               "plan": [RUN, RUN]})
     return [progen.normalize(p) for p in ps]
 
 
@@ -180,7 +226,9 @@ def shallow_programs(ctx: Ctx, n_random: int, tag: str) -> list[dict]:
     """Programs for the ultimate-reduction side (C03): check_valid="shallow" tasks over subtrees that are
     edited and reverted between runs; cur15 puts a CSE-answered call beneath the shallow task."""
     edit = {"k": "edit", "t": "leaf"}
-    ps = [p for p in curated_programs() if p["ns"] == "cur15"]
+    ps = [p for p in curated_programs() if p["ns"] in ("cur15", "cur17")]
+    for p in ps:   # an unchanged second run first: the shallow task is answered by ultimate reduction
+        p["plan"] = [RUN] + p["plan"]
     for i in range(n_random):
         plan = [RUN, edit, RUN, edit, RUN] if i % 2 else [RUN, edit, RUN]
         p = progen.random_program(ctx.rng, f"sh{tag}{ctx.seed}_{i}", max_kids=3, p_fail=0.15, plan=list(plan))
@@ -214,7 +262,7 @@ def model_check(ctx: Ctx, progs: list[dict], dev: bool = True, invariants=None, 
         "{TRUE, FALSE}" if dev == "both" else "{TRUE}" if dev else "{FALSE}", devs or DEVS)
     cfg += "".join(f"INVARIANT {i}\n" for i in inv)
     if hang_report:
-        cfg += "INVARIANT HangReport\nINVARIANT ForkReport\nINVARIANT CseErrReport\n"
+        cfg += "INVARIANT HangReport\nINVARIANT ForkReport\nINVARIANT CseErrReport\nINVARIANT OrphanReport\n"
     cfg += "CHECK_DEADLOCK FALSE\n"
     return run_tlc("sched/Scheduler.tla", cfg, ctx.scratch, workers=workers,
                    env={"PROGRAM_FILE": str(f)}, timeout=timeout, heap="8g")
@@ -246,14 +294,38 @@ def _norm_impl_obs(e: dict) -> dict:
 
 
 def callgraph_digest(backend, execution_id: str) -> dict:
-    """(set of call hashes, set of argument value hashes) recorded for one execution."""
-    from redun.backends.db import Argument, CallNode, Job
+    """(set of call-node identities, set of argument value hashes) recorded for one execution.
+    A node's identity is re-derived here as H(task hash, args hash, result, identities of the recorded children)
+    with every ErrorValue result replaced by one token: the recorded hash of a failed call contains the pickled
+    traceback (file names of the generated module, line numbers), which differs from run to run for reasons that
+    have nothing to do with scheduling."""
+    import hashlib
+
+    from redun.backends.db import Argument, CallEdge, CallNode, Job, Value
 
     s = backend.session
-    calls = sorted({h for (h,) in s.query(Job.call_hash).filter(Job.execution_id == execution_id) if h})
-    args = sorted({(a.call_hash, a.arg_position if a.arg_position is not None else -1, a.arg_key or "",
-                    a.value_hash)
-                   for a in s.query(Argument).filter(Argument.call_hash.in_(calls))}) if calls else []
+    roots = sorted({h for (h,) in s.query(Job.call_hash).filter(Job.execution_id == execution_id) if h})
+    memo: dict = {}
+
+    def ident(h: str) -> str:
+        if h in memo:
+            return memo[h]
+        memo[h] = "cycle"
+        n = s.query(CallNode).filter_by(call_hash=h).first()
+        if n is None:
+            memo[h] = "missing:" + h
+            return memo[h]
+        v = s.query(Value.type).filter_by(value_hash=n.value_hash).first()
+        res = "ERROR" if v is not None and v[0] == "redun.ErrorValue" else n.value_hash
+        kids = sorted(ident(c) for (c,) in s.query(CallEdge.child_id).filter_by(parent_id=h))
+        memo[h] = hashlib.sha1(json.dumps([n.task_hash, n.args_hash, res, kids]).encode()).hexdigest()
+        return memo[h]
+
+    calls = sorted({ident(h) for h in roots})
+    errvals = {vh for (vh,) in s.query(Value.value_hash).filter(Value.type == "redun.ErrorValue")}
+    args = sorted({(ident(a.call_hash), a.arg_position if a.arg_position is not None else -1, a.arg_key or "",
+                    "ERROR" if a.value_hash in errvals else a.value_hash)
+                   for a in s.query(Argument).filter(Argument.call_hash.in_(roots))}) if roots else []
     return {"calls": calls, "args": [list(a) for a in args]}
 
 
@@ -426,6 +498,8 @@ def contract_trace(prog: dict, rec: dict, expect: Optional[dict], prevdry: Optio
                         "etype": e.get("etype", ""), "msg": e.get("msg", "")})
         elif k == "state":
             evs.append({"ev": "state", "used": {r: int(e["used"].get(r, 0)) for r in names}})
+        elif k == "ult_hit":
+            evs.append({"ev": "ult_hit", "stale": int(e["stale"]), "nodes": int(e["nodes"])})
         elif k == "job_start":
             evs.append({"ev": "job_start", "job": _jid(e["job"])})
         elif k == "job_end":
@@ -529,6 +603,8 @@ def suite(ctx: Ctx, on: list[str], n_random_progs: int, n_sim: int, n_random_his
     hung = mc.recs("HUNG")
     forkdev = {r["pi"] for r in mc.recs("FORKDEV")}
     cseerrdev = {r["pi"] for r in mc.recs("CSEERRDEV")}
+    orphandev = {r["pi"] for r in mc.recs("ORPHANDEV")}
+    ctx.note("programs_that_can_return_with_a_job_still_running_in_model", sorted(orphandev))
     ctx.note("programs_with_cse_replayed_error_recover_calls_in_model", sorted(cseerrdev))
     ctx.note("programs_with_timing_dependent_fork_keys_in_model", sorted(forkdev))
     ctx.note("model", {"programs": len(progs), "states": mc.distinct, "transitions": mc.generated,
@@ -684,6 +760,9 @@ def suite(ctx: Ctx, on: list[str], n_random_progs: int, n_sim: int, n_random_his
             stats["hung_impl"] += 1
         if m.get("stale_key") and (why.startswith("determ:") or why.startswith("errors:raised-error-not-produced")):
             key = m["stale_key"]
+        if (why.startswith("nohang:returned-with-") or why.startswith("callgraph:")) and m["pi"] in orphandev:
+            # explained by the as-built model: a caught failure abandons the jobs still running beneath the failed job
+            key = "caught-failure-leaves-job-running"
         if why.startswith("callgraph:") and m["pi"] in forkdev:
             # explained by the as-built deviation DevForkAtExec (TLC reports the program)
             key = "handle-fork-order"
